@@ -13,6 +13,9 @@
  *                        sl = nanosleep in virtual time)
  *   cb <t> <R|C> <op>    what task t's function does when invoked with RUN (R) / CANCELED (C):
  *                        one of sn / sf / sa / c as above, executed on the invoking thread (re-entrant API use)
+ *   topt <cpu_id> <name|-> <inject>   thread options given to aws_thread_scheduler_new: cpu pinning and a thread name;
+ *                        inject = 1: the first pthread_create of the run fails with EINVAL (as for a cpu the OS refuses),
+ *                        so aws_thread_launch discards its first wrapper and retries unpinned
  *   choices <k>...       DS_CHOICES list      picks <p>...   DS_EXPLICIT list (several lines append)
  *   evs ...              (for the model driver; ignored here)
  *   run
@@ -22,6 +25,7 @@
  * taken, from which props/c08.py builds the explicit replay case. */
 #include "detsched.h"
 #include "h_common.h"
+#include <aws/common/byte_buf.h>
 #include <aws/common/task_scheduler.h>
 #include <aws/common/thread.h>
 #include <aws/common/thread_scheduler.h>
@@ -56,6 +60,8 @@ static char s_mode[16];
 static uint64_t s_seed;
 static unsigned s_stay, s_spur;
 static uint64_t s_tick;
+static int s_opt_set, s_opt_cpu, s_opt_inject;
+static char s_opt_name[32];
 static int s_list[MAXLIST];
 static size_t s_nlist;
 
@@ -159,7 +165,14 @@ static void *s_client(void *arg) {
 
 static void s_main(void *arg) {
     (void)arg;
-    s_sched = aws_thread_scheduler_new(&s_dirty, aws_default_thread_options());
+    struct aws_thread_options topt = *aws_default_thread_options();
+    if (s_opt_set) {
+        topt.cpu_id = s_opt_cpu;
+        if (strcmp(s_opt_name, "-")) {
+            topt.name = aws_byte_cursor_from_c_str(s_opt_name);
+        }
+    }
+    s_sched = aws_thread_scheduler_new(&s_dirty, &topt);
     HC_CHECK(s_sched != NULL);
     for (int i = 1; i < s_nclients; ++i) {
         aws_thread_scheduler_acquire(s_sched);
@@ -183,6 +196,8 @@ static void s_reset_case(void) {
     s_stay = 50;
     s_spur = 0;
     s_tick = 0;
+    s_opt_set = 0;
+    s_opt_inject = 0;
 }
 
 static const char *s_who(int ord, char *buf) {
@@ -364,6 +379,7 @@ static void s_run_case(void) {
     cfg.clock_tick_ns = s_tick;
     cfg.max_steps = 20000;
     ds_init(&cfg);
+    ds_inject_create_failure(s_opt_set && s_opt_inject ? 0 : -1, EINVAL);
     int rc = ds_run(s_main, NULL);
     alarm(0);
 
@@ -530,6 +546,12 @@ int main(void) {
             if (!s_parse_prog(t, n)) {
                 printf("bad-op\n");
             }
+        } else if (!strcmp(t[0], "topt") && n == 4) {
+            s_opt_set = 1;
+            s_opt_cpu = atoi(t[1]);
+            strncpy(s_opt_name, t[2], sizeof(s_opt_name) - 1);
+            s_opt_name[sizeof(s_opt_name) - 1] = 0;
+            s_opt_inject = atoi(t[3]);
         } else if (!strcmp(t[0], "cb")) {
             if (!s_parse_cb(t, n)) {
                 printf("bad-op\n");
